@@ -88,12 +88,19 @@ inductive SymClass where
   | procedureSymbol | derivedTypeSymbol | array | scalar | deferredTypeSymbol
 deriving DecidableEq, Repr
 
-/-- the tier chain of `Variable.__new__` (l.852–868).  `dims = none` covers both "no `dimensions`
-keyword" and `dimensions=None` (popped at l.860); `some n` is a tuple of length `n` (`some 0` = `()`). -/
+/-- l.860–863 (since the `fix:` commit for `empty-dimensions-array`):
+`if 'dimensions' in kwargs and not kwargs['dimensions']: kwargs.pop('dimensions')` — `None` and the empty tuple
+both mean "no subscripts given" -/
+def normDims : Option Nat → Option Nat
+  | some 0 => none
+  | d => d
+
+/-- the tier chain of `Variable.__new__` (l.852–869).  `dims = none` covers both "no `dimensions`
+keyword" and `dimensions=None`; `some n` is a tuple of length `n` (`some 0` = `()`, popped like `None`). -/
 def classify (ty : Option Ty) (name : Name) (dims : Option Nat) : SymClass :=
   if isProc ty then .procedureSymbol
   else if isDerivedNamed ty name then .derivedTypeSymbol
-  else if dims.isSome || shapeTruthy ty then .array
+  else if (normDims dims).isSome || shapeTruthy ty then .array
   else if cleanOpt ty then .scalar
   else .deferredTypeSymbol
 
@@ -104,10 +111,6 @@ def refClass (ty : Option Ty) (name : Name) (dims : Option Nat) : SymClass :=
   else if (match dims with | some (_ + 1) => true | _ => false) || shapeTruthy ty then .array
   else if cleanOpt ty then .scalar
   else .deferredTypeSymbol
-
-/-- known-finding class `empty-dimensions-array`: `dimensions=()` and nothing else makes the symbol an array -/
-def KnownEmptyDims (ty : Option Ty) (name : Name) (dims : Option Nat) : Bool :=
-  dims == some 0 && !isProc ty && !isDerivedNamed ty name && !shapeTruthy ty
 
 /-! ## scopes and symbol tables -/
 
@@ -207,7 +210,8 @@ def Sym.parts (s : Sym) : List Name :=
 /-- type definitions: name and member declarations `(name, v.type)` in declaration order (static) -/
 abbrev TDefs := List (Name × List (Name × Ty))
 
-/-- result of an evaluation that the real code may abort with `RecursionError` -/
+/-- result of an evaluation that the real code could abort with `RecursionError` before the `fix:` commit for
+`deferred-member-recursion`; `recursion` is no longer produced (`C13_no_recursion`) -/
 inductive Res (α : Type) where
   | ok (a : α)
   | recursion
@@ -246,15 +250,16 @@ def findMember (ms : Option (List (Name × Ty))) (b : Name) : Option (Name × Ty
   | none => none
   | some l => l.reverse.find? fun m => lower m.1 == lower b
 
-/-- `tdef_var.type` for the clone of member `m` held by `p`.  Unattached holder: the clone keeps the
-member type locally.  Attached holder: the entry just written is read back; when it is not clean
-(member of DEFERRED type) `_lookup_type` asks `p.variable_map` again and never terminates. -/
+/-- the type of the clone of member `m` held by `p`, as the two callers obtain it.  Unattached holder: the clone
+keeps the member type locally (`tdef_var.type`).  Attached holder: `_lookup_type` (since the `fix:` commit for
+`deferred-member-recursion`) reads the entry just written straight from the holder's scope; `_get_type_from_scope`
+still calls `tdef_var.type`, which is that entry when it is clean and otherwise goes once more through
+`p.variable_map` (the same writes again, no change of state) and then reads the entry.  Either way the result is
+the entry, and never a `RecursionError` (`Res.recursion` is kept in the result type but no longer produced). -/
 def tdefVarType (ss : Scopes) (p : Link) (m : Name × Ty) : Res (Option Ty) :=
   match p.scope with
   | none => .ok (some m.2)
-  | some ps =>
-    let t := lookup ss ps (key (qual p.base m.1))
-    if cleanOpt t then .ok t else .recursion
+  | some ps => .ok (lookup ss ps (key (qual p.base m.1)))
 
 /-- construction of `Variable(name=b, scope=sc, type=pt)` for a plain name, as done by `_lookup_parent`
 and `_get_type_from_scope`: the entry `b` of `sc` is (over)written with `pt`, or with DEFERRED if there is none -/
